@@ -201,6 +201,9 @@ def c16_jobs(tier):
         jobs.append(J("ast", "ZZ_C16_shared", order=order))
     # a variable-free item of ANY size encodes: the header function never reports an error within the limit (harness shared with C13)
     jobs += [J("ast", "ZZ_C13_header", typ=t) for t in range(14)]
+    # one scalar item with more than 65,536 variables (listed once each, in order); first, so that it runs alongside the others
+    jobs = [J("ast", "ZZ_C16_manyvars", n=n, kind=k, fuel=40_000_000_000, timeout_s=7200) for n, k in ([(66000, 0)] if tier == "quick" else [(66000, 0), (66000, 1), (70000, 2)])] + jobs
+    jobs += [J("ast", "ZZ_C16_manyvars", n=n, kind=k) for n in (2, 300) for k in (0, 1, 2)]
     jobs += [J("ast", "ZZ_C16_dupfill", which=w) for w in range(5)]
     jobs += [J("ast", "ZZ_C16_dupnames2", which=w, fresh=f) for w in range(14) for f in (0, 1)]
     jobs += [J("ast", "ZZ_C16_message", kind=k, wrap=w) for k in range(10) for w in (0, 1, 2)]
@@ -509,12 +512,12 @@ def c13_jobs(tier):
             jobs.append(J("ast", "ZZ_C13_factory", typ=t, n=16777216, via=0, heavy=1, **BIG))
             jobs.append(J("ast", "ZZ_C13_factory", typ=t, n=16777216, via=1, heavy=1, **BIG))
             jobs.append(J("ast", "ZZ_C13_factory", typ=t, n=300, via=1, **BIG))
+    # the real limit: first size beyond it for all 14 formats (the factory refuses at its first statement)
+    for t in range(14):
+        if t != 3:
+            jobs.append(J("ast", "ZZ_C13_factory", typ=t, n=16777215 // TYPE_W[t] + 1, via=0, heavy=1, **BIG))
     if tier != "quick":
-        # the real limit: first size beyond it for all 14 formats (the factory refuses at its first statement),
         # the largest constructible size for the 4- and 8-byte formats and ASCII (2M / 4M / 16M elements)
-        for t in range(14):
-            if t != 3:
-                jobs.append(J("ast", "ZZ_C13_factory", typ=t, n=16777215 // TYPE_W[t] + 1, via=0, heavy=1, **BIG))
         for t in (4, 8, 10, 7, 9, 13, 3):
             jobs.append(J("ast", "ZZ_C13_factory", typ=t, n=16777215 // TYPE_W[t], via=0, heavy=1, **BIG))
         jobs.append(J("ast", "ZZ_C13_factory", typ=3, n=16777215, via=1, heavy=1, **BIG))
